@@ -11,6 +11,9 @@ R6  no stale registration: an element is appended to n->waiters (or a child to p
     the note's mutex in which the notified flag was (re-)read - otherwise a notification that completed in between leaves the new waiter/child
     on an already drained note, never to be woken/notified.  (Appends made by nsync_note_free's adoption are judged by C09.R5.)
 R8  after storing the flag the marker waits for the note's child list to drain on every path to its return, parent or no parent.
+R9  "all descendants notified, waiters released": the notifier of a parent sleeps (nsync_mu_wait) until its child list drains; the critical
+    sections that unlink a child or store the flag therefore end with a condition-evaluating unlock, never nsync_mu_unlock_without_wakeup
+    (= C09.R8, judged here for the notifier that would otherwise never finish and leave the remaining descendants un-notified).
 R7  when nsync_note_notify returns the note is notified: every path through the notifier calls the marker, took the "not > 0" edge of the
     note-time test under the mutex, or waits (nsync_mu_wait on a condition reading the flag) for the notifier already in progress.
 Cross-thread histories ("no observer ever sees it un-notified again", descendants notified once no notification is in progress) are not decided."""
@@ -272,6 +275,9 @@ def run(ctx, rep):
     check_marker_waits_for_children(mod, rep, 'C08.R8')
     rep.rule('C08.R7', 'the notifier returns only after marking the note, seeing it notified, or waiting for the marking notifier')
     check_notify_returns_notified(mod, rep, 'C08.R7')
+    from . import C09
+    rep.rule('C08.R9', 'critical sections that change a child list or the flag end with a waking unlock (the draining notifier is a conditional waiter)')
+    C09.check_waking_unlock(eng, rep, 'C08.R9')
     rep.floor('C08.R2', 3)
     rep.floor('C08.R5', 15)
     rep.floor('C08.R6', 2)
